@@ -184,6 +184,8 @@ struct Item<T> {
     val: T,
     desc: String,
     json: J,
+    /// contains a Number that carries a unit
+    has_unit: bool,
 }
 
 fn fail(local: &mut Local, law: &str, ty: &str, items: &[&Item<impl Sized>], detail: String) {
@@ -272,36 +274,62 @@ where
             }
         }
     }
-    // consequences: collections see exactly the ==-classes
-    let mut classes: Vec<usize> = vec![];
-    for i in 0..n {
-        if !classes.iter().any(|&c| eq[c * n + i]) {
-            classes.push(i);
+    // consequences: collections see exactly the ==-classes — on the whole pool and on its part
+    // without unit-carrying Numbers (sorting compares through `lt`, i.e. partial_cmp, which is
+    // silent between Numbers of different units: known finding; the unit-free part has no excuse)
+    let mut nclasses = 0;
+    for (part, keep_units) in [("all", true), ("unitless", false)] {
+        let idx: Vec<usize> = (0..n).filter(|&i| keep_units || !pool[i].has_unit).collect();
+        let mut classes: Vec<usize> = vec![];
+        for &i in &idx {
+            if !classes.iter().any(|&c| eq[c * n + i]) {
+                classes.push(i);
+            }
         }
-    }
-    let nclasses = classes.len();
-    let hs: HashSet<T, std::hash::BuildHasherDefault<DefaultHasher>> = pool.iter().map(|i| i.val.clone()).collect();
-    let bs: BTreeSet<T> = pool.iter().map(|i| i.val.clone()).collect();
-    let bm: BTreeMap<&T, usize> = pool.iter().enumerate().map(|(i, it)| (&it.val, i)).collect();
-    let mut sorted: Vec<T> = pool.iter().map(|i| i.val.clone()).collect();
-    sorted.sort();
-    sorted.dedup();
-    local.eval();
-    for (name, got) in [("HashSet", hs.len()), ("BTreeSet", bs.len()), ("BTreeMap-keys", bm.len()), ("sort+dedup", sorted.len())] {
-        if got != nclasses {
-            let sig = format!("collection-size:{ty}:{name}");
-            local.fail(&sig, json!({"type": ty, "law": "collection-size", "collection": name}), format!("{name} of the {n}-value pool has {got} elements, == has {nclasses} classes"));
+        let ncl = classes.len();
+        if keep_units {
+            nclasses = ncl;
+        }
+        let sub: Vec<T> = idx.iter().map(|&i| pool[i].val.clone()).collect();
+        let hs: HashSet<T, std::hash::BuildHasherDefault<DefaultHasher>> = sub.iter().cloned().collect();
+        local.eval();
+        if hs.len() != ncl {
+            local.fail(&format!("collection-size:{ty}:HashSet"), json!({"type": ty, "law": "collection-size", "collection": "HashSet"}), format!("HashSet of the {}-value pool ({part}) has {} elements, == has {ncl} classes", sub.len(), hs.len()));
+        }
+        let ordered = guarded(|| {
+            let bs: BTreeSet<T> = sub.iter().cloned().collect();
+            let bm: BTreeMap<&T, usize> = sub.iter().enumerate().map(|(i, v)| (v, i)).collect();
+            let mut sorted: Vec<T> = sub.clone();
+            sorted.sort();
+            let in_order = sorted.windows(2).all(|w| w[0].cmp(&w[1]) != Ordering::Greater);
+            sorted.dedup();
+            (bs.len(), bm.len(), sorted.len(), in_order)
+        });
+        let mixed_units = keep_units && pool.iter().any(|i| i.has_unit);
+        let sig = |what: &str| if mixed_units { "sort-unsafe:numbers-with-different-units".to_string() } else { format!("collection-size:{ty}:{what}") };
+        match ordered {
+            Err(p) => local.fail(&sig("sort-panics"), json!({"type": ty, "law": "collection-size", "collection": "sort-panics", "part": part}), format!("sorting / BTreeSet of the {}-value {ty} pool ({part}) panics: {p}", sub.len())),
+            Ok((bs, bm, sorted, in_order)) => {
+                for (name, got) in [("BTreeSet", bs), ("BTreeMap-keys", bm), ("sort+dedup", sorted)] {
+                    if got != ncl {
+                        local.fail(&sig(name), json!({"type": ty, "law": "collection-size", "collection": name, "part": part}), format!("{name} of the {}-value {ty} pool ({part}) has {got} elements, == has {ncl} classes", sub.len()));
+                    }
+                }
+                if !in_order {
+                    local.fail(&sig("sort-unsorted"), json!({"type": ty, "law": "collection-size", "collection": "sort-unsorted", "part": part}), format!("sort() of the {ty} pool ({part}) is not sorted by cmp"));
+                }
+            }
         }
     }
     local.count_n(&format!("classes:{ty}"), nclasses as u64);
 }
 
 fn items(vs: &[V]) -> Vec<Item<Value>> {
-    vs.iter().map(|v| Item { val: to_lib(v), desc: shape_sig(v), json: to_json(v) }).collect()
+    vs.iter().map(|v| Item { val: to_lib(v), desc: shape_sig(v), json: to_json(v), has_unit: has_unit(v) }).collect()
 }
 
 fn typed<T: Clone>(all: &[Item<Value>], pick: &dyn Fn(&Value) -> Option<T>) -> Vec<Item<T>> {
-    all.iter().filter_map(|i| pick(&i.val).map(|t| Item { val: t, desc: i.desc.clone(), json: i.json.clone() })).collect()
+    all.iter().filter_map(|i| pick(&i.val).map(|t| Item { val: t, desc: i.desc.clone(), json: i.json.clone(), has_unit: i.has_unit })).collect()
 }
 
 fn run_type(ty: &str, all: &[Item<Value>], local: &mut Local) {
@@ -332,7 +360,7 @@ fn run_type(ty: &str, all: &[Item<Value>], local: &mut Local) {
             for i in all {
                 if let Value::Grid(g) = &i.val {
                     for c in &g.columns {
-                        cols.push(Item { val: c.clone(), desc: i.desc.clone(), json: i.json.clone() });
+                        cols.push(Item { val: c.clone(), desc: i.desc.clone(), json: i.json.clone(), has_unit: i.has_unit });
                     }
                 }
             }
@@ -618,9 +646,175 @@ fn unit_laws(local: &mut Local) {
     local.count_n("units", units.len() as u64);
 }
 
+
+// ------------------------------------------------------------------------------ laws after mutation
+
+fn tags_to_dict(t: &crate::model::v::Tags) -> Dict {
+    match to_lib(&V::Dict(t.clone())) {
+        Value::Dict(d) => d,
+        _ => unreachable!(),
+    }
+}
+
+fn mutation_pool() -> Vec<crate::model::v::Tags> {
+    let mut out: Vec<crate::model::v::Tags> = vec![vec![]];
+    let vals = [V::num(1.0), V::num(-0.0), V::numu(1.0, "m"), V::str("s"), V::Marker, V::Ref("r".into(), Some("d".into())), V::Ref("r".into(), None), V::dict(&[("x", V::num(1.0))]), V::List(vec![V::num(1.0)])];
+    for (i, a) in vals.iter().enumerate() {
+        out.push(mk_tags(&[("a", a.clone())]));
+        out.push(mk_tags(&[("a", a.clone()), ("b", vals[(i + 1) % vals.len()].clone())]));
+        out.push(mk_tags(&[("b", a.clone()), ("dis", V::str("D"))]));
+    }
+    out.push(mk_tags(&[("a", V::num(1.0)), ("b", V::num(2.0)), ("c", V::num(3.0)), ("id", V::Ref("x".into(), None))]));
+    out
+}
+
+const ROUTES: &[&str] = &["edit-in-place", "clear-and-extend", "clone-then-edit", "inside-Value", "inside-list", "grid-row", "grid-meta", "retain-and-insert"];
+
+/// A container that was hashed, compared, cloned and put into sets, and is THEN edited in place
+/// into the content `to`, must afterwards be indistinguishable (==, cmp, hashes, set membership)
+/// from a container built directly with that content.
+fn mutation_case(from: &crate::model::v::Tags, to: &crate::model::v::Tags, route: &str) -> Verdict {
+    let observe = |v: &Value| {
+        let _ = (h1(v), h2(v), v == &v.clone(), v.cmp(v));
+        let mut hs = HashSet::new();
+        hs.insert(v.clone());
+        let mut bs = BTreeSet::new();
+        bs.insert(v.clone());
+    };
+    let edit = |d: &mut Dict| {
+        let keys: Vec<String> = d.keys().cloned().collect();
+        for k in keys {
+            if !to.iter().any(|(n, _)| *n == k) {
+                d.remove(&k);
+            }
+        }
+        for (k, v) in to {
+            d.insert(k.clone(), to_lib(v));
+        }
+    };
+    let fresh_dict = tags_to_dict(to);
+    let (got, fresh): (Value, Value) = match route {
+        "edit-in-place" => {
+            let mut d = tags_to_dict(from);
+            observe(&Value::Dict(d.clone()));
+            let _ = (h1(&d), h2(&d));
+            edit(&mut d);
+            let pair_ok = d == fresh_dict && (h1(&d) != h1(&fresh_dict) || h2(&d) != h2(&fresh_dict));
+            if pair_ok {
+                return Err((format!("hash-after-mutation:Dict:{route}"), format!("{from:?} hashed, then edited in place into {to:?}: equal to a fresh dict but hashes differently")));
+            }
+            (Value::Dict(d), Value::Dict(fresh_dict))
+        }
+        "clear-and-extend" => {
+            let mut d = tags_to_dict(from);
+            let _ = (h1(&d), h2(&d));
+            d.clear();
+            d.extend(to.iter().map(|(k, v)| (k.clone(), to_lib(v))));
+            (Value::Dict(d), Value::Dict(fresh_dict))
+        }
+        "retain-and-insert" => {
+            let mut d = tags_to_dict(from);
+            let _ = (h1(&d), h2(&d));
+            d.retain(|k, _| to.iter().any(|(n, _)| n == k));
+            for (k, v) in to {
+                if let Some(slot) = d.get_mut(k) {
+                    *slot = to_lib(v);
+                } else {
+                    d.insert(k.clone(), to_lib(v));
+                }
+            }
+            (Value::Dict(d), Value::Dict(fresh_dict))
+        }
+        "clone-then-edit" => {
+            let d0 = tags_to_dict(from);
+            let _ = (h1(&d0), h2(&d0));
+            let mut d = d0.clone();
+            edit(&mut d);
+            let _ = d0;
+            (Value::Dict(d), Value::Dict(fresh_dict))
+        }
+        "inside-Value" => {
+            let mut v = Value::Dict(tags_to_dict(from));
+            observe(&v);
+            if let Value::Dict(d) = &mut v {
+                edit(d);
+            }
+            (v, Value::Dict(fresh_dict))
+        }
+        "inside-list" => {
+            let mut v = Value::List(vec![Value::Dict(tags_to_dict(from)), Value::make_str("tail")]);
+            observe(&v);
+            if let Value::List(l) = &mut v {
+                if let Value::Dict(d) = &mut l[0] {
+                    edit(d);
+                }
+            }
+            (v, Value::List(vec![Value::Dict(fresh_dict), Value::make_str("tail")]))
+        }
+        "grid-row" => {
+            let mut g = Grid::make_from_dicts(vec![tags_to_dict(from), tags_to_dict(to)]);
+            let cols = g.columns.clone();
+            observe(&Value::Grid(g.clone()));
+            edit(&mut g.rows[0]);
+            let mut f = Grid::make_from_dicts(vec![tags_to_dict(to), tags_to_dict(to)]);
+            f.columns = cols;
+            (Value::Grid(g), Value::Grid(f))
+        }
+        _ => {
+            let mut g = Grid::make_from_dicts_with_meta(vec![tags_to_dict(from)], tags_to_dict(from));
+            observe(&Value::Grid(g.clone()));
+            if let Some(m) = g.meta.as_mut() {
+                edit(m);
+            }
+            let f = Grid::make_from_dicts_with_meta(vec![tags_to_dict(from)], tags_to_dict(to));
+            (Value::Grid(g), Value::Grid(f))
+        }
+    };
+    let ty = match &got {
+        Value::Dict(_) => "Dict",
+        Value::List(_) => "List",
+        _ => "Grid",
+    };
+    if got != fresh || fresh != got {
+        return Err((format!("eq-after-mutation:{ty}:{route}"), format!("{from:?} edited into {to:?} is not == a freshly built value")));
+    }
+    if got.cmp(&fresh) != Ordering::Equal || fresh.partial_cmp(&got) != Some(Ordering::Equal) {
+        return Err((format!("cmp-after-mutation:{ty}:{route}"), format!("{from:?} edited into {to:?}: cmp {:?}", got.cmp(&fresh))));
+    }
+    if h1(&got) != h1(&fresh) || h2(&got) != h2(&fresh) || h1(&got.clone()) != h1(&fresh) {
+        return Err((format!("hash-after-mutation:{ty}:{route}"), format!("{from:?} observed (hashed, compared, cloned), then edited in place into {to:?}: == a freshly built value but hashes differently")));
+    }
+    let mut hs = HashSet::new();
+    hs.insert(fresh.clone());
+    let mut bs = BTreeSet::new();
+    bs.insert(fresh.clone());
+    if !hs.contains(&got) || !bs.contains(&got) || hs.insert(got.clone()) || bs.insert(got.clone()) {
+        return Err((format!("set-membership-after-mutation:{ty}:{route}"), format!("{from:?} edited into {to:?} is not found in a set holding the freshly built value")));
+    }
+    Ok(())
+}
+
+fn mutation_laws(run: &mut Run) {
+    let pool = mutation_pool();
+    let n = pool.len();
+    let l = par_for(n * n, |k, local| {
+        let (a, b) = (&pool[k / n], &pool[k % n]);
+        for route in ROUTES {
+            local.eval();
+            local.count("mutation-cases");
+            match guarded(|| mutation_case(a, b, route)) {
+                Ok(Ok(())) => {}
+                Ok(Err((sig, d))) => local.fail(&sig, json!({"law": "mutation", "from": to_json(&V::Dict(a.clone())), "to": to_json(&V::Dict(b.clone())), "route": route}), d),
+                Err(p) => local.fail(&format!("panic-after-mutation:{route}"), json!({"law": "mutation", "from": to_json(&V::Dict(a.clone())), "to": to_json(&V::Dict(b.clone())), "route": route}), p),
+            }
+        }
+    });
+    run.absorb(l);
+}
+
 pub fn run(tier: Tier) -> i32 {
     let mut run = Run::new("C12", tier, "exploration");
-    run.rule = "near-collision pool Π (±0 plain/with unit/in Coord/nested, same magnitude under different or no unit, Refs differing only in dis, same payload under different kinds, dict/list/grid neighbours, equal instants in different zones); every law on all |Π|² ordered pairs and all |Π|³ triples, for Value and each typed value; plus the wide set W (Π, the scalar alphabet Σ — every 5th value in the quick tier —, 300/1500 containers of U, the ver variants; no NaN): every pair law on all |W|² ordered pairs of Values and transitivity of == and of cmp on all |W|³ triples decided through ranks and classes (equivalent, O(|W|²)); HashSet/BTreeSet/sort+dedup of W have one element per ==-class; for every pair of identifier-like string literals of the library's own source (harvested from /repo/src at run time) two dicts carrying those tags and differing in a third tag only must be unequal under ==, cmp, partial_cmp; non-trivial = ordered pair of two different pool entries (distinct by type + both values)".into();
+    run.rule = "near-collision pool Π (±0 plain/with unit/in Coord/nested, same magnitude under different or no unit, Refs differing only in dis, same payload under different kinds, dict/list/grid neighbours, equal instants in different zones); every law on all |Π|² ordered pairs and all |Π|³ triples, for Value and each typed value; plus the wide set W (Π, the scalar alphabet Σ — every 5th value in the quick tier —, 300/1500 containers of U, the ver variants; no NaN): every pair law on all |W|² ordered pairs of Values and transitivity of == and of cmp on all |W|³ triples decided through ranks and classes (equivalent, O(|W|²)); HashSet/BTreeSet/sort+dedup of W have one element per ==-class; for every pair of identifier-like string literals of the library's own source (harvested from /repo/src at run time) two dicts carrying those tags and differing in a third tag only must be unequal under ==, cmp, partial_cmp; laws after mutation: every ordered pair of 29 dict contents x 8 routes (a dict that was hashed / compared / cloned / put into sets is edited in place — insert+remove, clear+extend, retain+get_mut, clone first, inside a Value, a list element, a grid row, grid meta — into the other content) must be ==, cmp-equal, hash-equal (two hashers) and set-interchangeable with a freshly built value; non-trivial = ordered pair of two different pool entries (distinct by type + both values)".into();
     run.assume("no NaN anywhere (excluded by the statement)");
     run.assume("SipHash (DefaultHasher) and FNV-1a stand for 'any Hasher'");
     crate::engine::quiet_panics();
@@ -639,6 +833,8 @@ pub fn run(tier: Tier) -> i32 {
     run.absorb(l);
     wide_laws(tier, &mut run);
     named_tag_laws(&mut run);
+    mutation_laws(&mut run);
+    run.require(run.counter("mutation-cases") > 5000, "mutation histories missing");
     run.require(run.counter("named-tag-pairs") > 1000, "too few names harvested from the source");
     run.require(run.counter("wide-values") > 500, "wide set too small");
     for t in ["Value", "Number", "Coord", "Ref", "Dict", "Grid", "List"] {
@@ -657,6 +853,17 @@ pub fn replay(case: &J) -> Verdict {
     let ty = case["type"].as_str().unwrap_or("Value").to_string();
     let law = case["law"].as_str().unwrap_or("").to_string();
     let mut local = Local::new();
+    if law == "mutation" {
+        let (a, b) = (from_json(&case["from"]), from_json(&case["to"]));
+        if let (V::Dict(a), V::Dict(b)) = (a, b) {
+            let route = case["route"].as_str().unwrap_or("");
+            return match guarded(|| mutation_case(&a, &b, route)) {
+                Ok(v) => v,
+                Err(p) => Err((format!("panic-after-mutation:{route}"), p)),
+            };
+        }
+        return Ok(());
+    }
     if ty == "Unit" {
         unit_laws(&mut local);
     } else if law == "named-tags" {
@@ -700,6 +907,12 @@ pub fn replay(case: &J) -> Verdict {
     } else {
         format!("{law}:{ty}:{}", descs.join("/"))
     };
+    if law == "collection-size" {
+        return match local.fails.values().find(|f| f.case["law"] == "collection-size" && f.case["type"] == case["type"] && f.case["collection"] == case["collection"] && f.case["part"] == case["part"]) {
+            Some(f) => Err((f.sig.clone(), f.detail.clone())),
+            None => Ok(()),
+        };
+    }
     let mut hits: Vec<_> = local
         .fails
         .values()
